@@ -236,6 +236,17 @@ Definition in_F9 (l : list edge) : bool :=
                           && String.eqb (printable_name (n_info (e_src a))) (printable_name (n_info (e_src b)))
                           && String.eqb (printable_name (n_info (e_dst a))) (printable_name (n_info (e_dst b)))) l.
 
+(* node-level form of F9 for a whole graph: two different nodes share a printable name, so two
+   edges with a common endpoint can tie *)
+Definition in_F9_nodes (l : list node) : bool :=
+  exists_pair (fun a b => negb (node_same a b)
+                          && String.eqb (printable_name (n_info a)) (printable_name (n_info b))) l.
+(* F25: entropyScore adds float64 terms in map order.  A node is exposed when it has three or more
+   edges on one side; a whole -dot report when, in addition, weights are large enough (2^40) for
+   the float rounding of score*cum to reach the integer part *)
+Definition in_F25_node (edges_on_a_side : Z) : bool := 3 <=? edges_on_a_side.
+Definition in_F25_graph (l : list node) : bool := existsb (fun n => 1099511627776 <=? abs64 (n_cum n)) l.
+
 (* ---------------------------------------------------------------- case-format codec *)
 Definition info_of (t : term) : node_info :=
   {| ni_name := gs (gn t 0); ni_orig := gs (gn t 1); ni_addr := gz (gn t 2); ni_file := gs (gn t 3);
